@@ -155,7 +155,10 @@ class LaneBasedExecutionQueue : public ExecutionQueue {
 
   /// Background (lane released) task management
   unsigned backgroundTaskMax = 0;
-  std::atomic<unsigned> backgroundTaskCount{0};
+  /// Shared with the detached background threads, which may still be running
+  /// (past the point where they report completion) when the queue is destroyed.
+  std::shared_ptr<std::atomic<unsigned>> backgroundTaskCount{
+      std::make_shared<std::atomic<unsigned>>(0)};
 
 
   /// The base environment.
@@ -432,15 +435,18 @@ public:
     handle.id = context.jobID;
 
     ProcessReleaseFn releaseFn = [this](std::function<void()>&& processWait) {
-      auto previousTaskCount = backgroundTaskCount.fetch_add(1);
+      auto taskCount = backgroundTaskCount;
+      auto previousTaskCount = taskCount->fetch_add(1);
       if (previousTaskCount < backgroundTaskMax) {
-        // Launch the process wait on a detached thread
-        std::thread([this, processWait=std::move(processWait)]() mutable {
+        // Launch the process wait on a detached thread. The thread must not
+        // touch the queue after processWait() returns: reporting completion
+        // allows the owner to destroy the queue.
+        std::thread([taskCount, processWait=std::move(processWait)]() mutable {
           processWait();
-          backgroundTaskCount--;
+          (*taskCount)--;
         }).detach();
       } else {
-        backgroundTaskCount--;
+        (*taskCount)--;
         // not allowed to release, call wait directly
         processWait();
       }
